@@ -64,6 +64,7 @@ ULogged(ev, s) == UNION {DOMAIN g.domains : g \in {h \in Range(ev.topo) : h.type
 \* the code's own count of the domain of the owned spread groups on this key (after the commit), for the drift note
 CodeCounts(ev, s, d) == {g.domains[d] : g \in {h \in Range(ev.topo) : h.type = "topology spread" /\ ~h.inverse /\ h.owned /\ h.key = s.key
                                                                         /\ h.maxSkew = s.maxSkew /\ d \in DOMAIN h.domains}}
+GroupsOf(ev, s) == {g \in Range(ev.topo) : g.type = "topology spread" /\ ~g.inverse /\ g.owned /\ g.key = s.key /\ g.maxSkew = s.maxSkew}
 GroupOwners(ev, s) == UNION {Range(h.owners) : h \in {g \in Range(ev.topo) : g.type = "topology spread" /\ ~g.inverse /\ g.owned /\ g.key = s.key /\ g.maxSkew = s.maxSkew}}
 GroupMinDomains(ev, s) == {h.minDomains : h \in {g \in Range(ev.topo) : g.type = "topology spread" /\ ~g.inverse /\ g.owned /\ g.key = s.key /\ g.maxSkew = s.maxSkew}}
 \* the admitted pod object had its node filter (required terms / tolerations) changed by relaxation earlier in this pass
@@ -83,7 +84,7 @@ AdmissionChecks(ev) ==
                IF p.spread[i].when # "DoNotSchedule" THEN <<>>
                ELSE LET s == p.spread[i]
                         a == SpreadParts(Strict, W, p, x, s, U(s))
-                    IN ChkI(a.ok, "G_C02_Spread", SigSpread(Strict, W, p, x, s, U(s), SpreadCause(Strict, W, p, x, s, U(s), ev.eff, GroupMinDomains(ev, s), GroupOwners(ev, s))), ToString([pod |-> ev.pod, cnt |-> a.cnt, self |-> a.self, min |-> a.min, hi |-> a.hi, skew |-> s.maxSkew]))
+                    IN ChkI(a.ok, "G_C02_Spread", SigSpread(Strict, W, p, x, s, U(s), SpreadCause(Strict, W, p, x, s, U(s), ev.eff, GroupsOf(ev, s))), ToString([pod |-> ev.pod, cnt |-> a.cnt, self |-> a.self, min |-> a.min, hi |-> a.hi, skew |-> s.maxSkew]))
                        \o (IF ~a.ok \/ Cardinality(a.dx) # 1 THEN <<>>
                            ELSE LET d == CHOOSE e \in a.dx : TRUE
                                     cc == CodeCounts(ev, s, d)
